@@ -168,20 +168,18 @@ func (d *Database) FindEmitterSequenceGap(prefix vaa.VAAID) (resp []uint64, firs
 		// rather than numerically, so we need to sort them in-memory).
 		seqs := make(map[uint64]bool)
 		for it.Seek(prefix); it.ValidForPrefix(prefix); it.Next() {
-			item := it.Item()
-			key := item.Key()
-			err := item.Value(func(val []byte) error {
-				v, err := vaa.Unmarshal(val)
-				if err != nil {
-					return fmt.Errorf("failed to unmarshal VAA for %s: %v", string(key), err)
-				}
-
-				seqs[v.Sequence] = true
-				return nil
-			})
-			if err != nil {
-				return err
+			// The sequence is the last component of the key. Do not decode the value: a stored
+			// VAA that vaa.Unmarshal rejects (empty payload) would fail the whole query.
+			keyStr := string(it.Item().Key())
+			seqIndex := strings.LastIndex(keyStr, "/")
+			if seqIndex == -1 {
+				return fmt.Errorf("invalid vaa key: %s", keyStr)
 			}
+			sequence, err := strconv.ParseUint(keyStr[seqIndex+1:], 10, 64)
+			if err != nil {
+				return fmt.Errorf("invalid vaa key %s: %v", keyStr, err)
+			}
+			seqs[sequence] = true
 		}
 
 		// Find min/max (yay lack of Go generics)
